@@ -6,9 +6,10 @@ Helper lemmas and the well-formedness predicate `Discrete.WF` live in `EoNVerif.
 namespace Discrete
 
 /-- **pathwise generation rule**: for every outcome table of the contacts, the next generation is exactly the set of
-susceptible nodes with at least one successful contact from a currently infectious neighbour -/
+susceptible nodes with at least one successful contact from a currently infectious neighbour (the outcome of the
+contact `u → v` may depend on how many steps `u` has already been infectious, `s.age u`) -/
 theorem step_newInf (P : DParams) (s : DState) (v : Node) (hv : v ∈ P.nodes) (hnot : v ∉ s.inf) :
-    v ∈ (step P s).inf ↔ (s.sus v = true ∧ ∃ u ∈ s.inf, v ∈ P.nbrs u ∧ P.rule u v = true) :=
+    v ∈ (step P s).inf ↔ (s.sus v = true ∧ ∃ u ∈ s.inf, v ∈ P.nbrs u ∧ P.rule (s.age u) u v = true) :=
   step_newInf' P s v hv hnot
 
 /-- default recovery rule: every infectious node is infectious for exactly one step -/
@@ -31,12 +32,20 @@ theorem rows_shape (P : DParams) (infs recs : List Node) (fuel : Nat) :
 
 /-- **BFS**: when the loop has stopped (no infecteds left or horizon reached), a node is infected exactly at
 `tmin +` its breadth-first distance from the initial set in the digraph of successful contacts (initially recovered
-nodes removed), if that step was simulated; holds for the default rule and for every recovery rule -/
+nodes removed), if that step was simulated; holds under the default recovery rule (every node is infectious for one
+step, so every contact is made at age 0) for every transmission rule, and under every recovery rule for every
+transmission rule that does not depend on the age of the source (`Ageless`) -/
 theorem bfs_correct (P : DParams) (infs recs : List Node) (h : WF P infs recs) (fuel : Nat)
+    (hrule : P.recSteps = none ∨ Ageless P)
     (hstop : let s := run P infs recs fuel
              s.inf.isEmpty = true ∨ ERat.lt (some (s.t.headD P.tmin)) P.tmax = false) :
     isBFS P infs recs (run P infs recs fuel).infTime = true :=
-  bfs_correct' P infs recs h fuel hstop
+  bfs_correct' P infs recs hrule h fuel hstop
+
+/-- default recovery rule: the age of every node stays 0 (every contact is made at age 0) -/
+theorem age_default (P : DParams) (infs recs : List Node) (fuel : Nat) (h : P.recSteps = none) :
+    (run P infs recs fuel).age = fun _ => 0 :=
+  age_default' P infs recs fuel h
 
 /-- the iteration order of the infectious set does not matter -/
 theorem step_perm (P : DParams) (s s' : DState) (hp : s.inf.Perm s'.inf)
@@ -68,6 +77,26 @@ end Discrete
 /-! non-vacuity: path 0-1-2-3 with one failed contact -/
 def exDn (u : Node) : List Node := match u with | 0 => [1] | 1 => [0, 2] | 2 => [1, 3] | 3 => [2] | _ => []
 def exD : DParams :=
-  { nodes := [0, 1, 2, 3], nbrs := exDn, rule := fun u v => !(u == 2 && v == 3), recSteps := none, tmin := 0, tmax := none }
+  { nodes := [0, 1, 2, 3], nbrs := exDn, rule := fun _ u v => !(u == 2 && v == 3), recSteps := none, tmin := 0, tmax := none }
 example : (Discrete.run exD [0] [] 10).infTime = [(1, 1), (2, 2)] := by decide +kernel
 example : Discrete.isBFS exD [0] [] (Discrete.run exD [0] [] 10).infTime = true := by decide +kernel
+
+/-! non-vacuity of the age argument: path 0-1-2, every node infectious for two steps, the contact 0 → 1 fails at the
+first step node 0 is infectious (age 0) and succeeds at the second (age 1): node 1 is infected at time 2 (not 1), node 2
+at time 3.  The rule is not `Ageless` and the recovery rule is not the default one, and indeed the BFS predicate (which
+reads the rule at age 0 only, where 0 → 1 fails, so 1 and 2 are unreachable) is false for this run: the hypothesis
+`hrule` of `bfs_correct` cannot be dropped. -/
+def exAn (u : Node) : List Node := match u with | 0 => [1] | 1 => [0, 2] | 2 => [1] | _ => []
+def exA : DParams :=
+  { nodes := [0, 1, 2], nbrs := exAn, rule := fun a u v => !(u == 0 && v == 1 && a == 0),
+    recSteps := some (fun _ => 2), tmin := 0, tmax := none }
+example : exA.rule 0 0 1 = false ∧ exA.rule 1 0 1 = true := by decide +kernel
+example : (Discrete.run exA [0] [] 10).infTime = [(1, 2), (2, 3)] := by decide +kernel
+example : (Discrete.run exA [0] [] 10).inf = [] := by decide +kernel
+example : (Discrete.run exA [0] [] 10).age 0 = 2 := by decide +kernel
+example : Discrete.isBFS exA [0] [] (Discrete.run exA [0] [] 10).infTime = false := by decide +kernel
+example : ¬ Discrete.Ageless exA := fun h => absurd (h 1 0 1) (by decide +kernel)
+/-- the same network with the stateless rule `rule 0` and the same recovery rule satisfies the BFS predicate -/
+def exA0 : DParams := { exA with rule := fun _ u v => exA.rule 0 u v }
+example : Discrete.Ageless exA0 := fun _ _ _ => rfl
+example : Discrete.isBFS exA0 [0] [] (Discrete.run exA0 [0] [] 10).infTime = true := by decide +kernel
